@@ -43,7 +43,8 @@ let run (module P : PROP) =
   List.iter (fun (i, c) -> Printf.fprintf oc "%d %s\n" i (P.to_line c)) cases;
   close_out oc;
   let t1 = Unix.gettimeofday () in
-  let cmd = Printf.sprintf "%s %s %s %s" (Filename.quote !probe) P.id (Filename.quote cf) (Filename.quote obf) in
+  (* the implementation under test may hang (that is an observation: cases without a line are reported) *)
+  let cmd = Printf.sprintf "timeout -s KILL %d %s %s %s %s" (if !tier = "thorough" then 14400 else 900) (Filename.quote !probe) P.id (Filename.quote cf) (Filename.quote obf) in
   let rc = Sys.command cmd in
   let t2 = Unix.gettimeofday () in
   let obs = Hashtbl.create 1024 in
